@@ -31,6 +31,7 @@ class Reporter:
         self.known = load_known()
         self.by_kind = {}         # kind -> ((size, ident), what, case)
         self.by_feats = {}        # (prefix, frozenset(features)) -> ((size, text), what, case)
+        self.universe = {}        # prefix -> [frozenset(features)] of all tested cases
         self.raw = 0
 
     def violation(self, kind, what, case, size=0, ident=""):
@@ -51,10 +52,39 @@ class Reporter:
         if cur is None or (size, text) < cur[0]:
             self.by_feats[key] = ((size, text), what, case)
 
+    def feature_universe(self, prefix, tested):
+        """Declare every feature set that was *tested* under `prefix`; lets finish() explain failures by a single
+        feature when every tested case carrying that feature failed."""
+        self.universe.setdefault(prefix, []).extend(frozenset(t) for t in tested)
+
     def _reduce_features(self):
         groups = {}
         for (prefix, feats), v in self.by_feats.items():
             groups.setdefault(prefix, []).append((feats, v))
+        for prefix, lst in list(groups.items()):
+            uni = self.universe.get(prefix)
+            if not uni:
+                continue
+            failing = {f for f, _ in lst}
+            singles = set()
+            for feat in sorted({x for f in failing for x in f}):
+                tested = [u for u in uni if feat in u]
+                if tested and sum(1 for u in tested if u in failing) >= 0.75 * len(tested):
+                    singles.add(feat)      # (almost) every tested case carrying this feature fails
+            if singles:
+                rest = []
+                best = {}
+                for feats, v in lst:
+                    hit = sorted(singles & feats)
+                    if hit:
+                        k = hit[0]
+                        if k not in best or v[0] < best[k][0]:
+                            best[k] = v
+                    else:
+                        rest.append((feats, v))
+                for k, v in best.items():
+                    rest.append((frozenset([k]), v))
+                groups[prefix] = rest
         for prefix, lst in groups.items():
             lst.sort(key=lambda fv: (len(fv[0]), fv[1][0]))
             kept = []
